@@ -44,6 +44,56 @@ def signed(lo, hi):
     return st.builds(lambda neg, v: -v if neg else v, st.booleans(), floats(lo, hi))
 
 
+COLLIDERS = ["ulp+", "ulp-", "rel+4e-7", "rel-4e-7", "float32", "x2^-61", "x2^61", "abs+1e-9", "round3", "int-part"]
+
+
+def collide(x, how):
+    """A value different from ``x`` that a lossy cache key would confuse with it: neighbouring floats, values equal
+    to 6 significant digits (``%g``) or in float32, values with the same CPython ``hash()`` (x * 2**+-61), the same
+    rounding to 3 decimals or the same integer part. Pure function; ``how`` is drawn from COLLIDERS by Hypothesis."""
+    x = float(x)
+    if how == "ulp+":
+        y = float(np.nextafter(x, np.inf))
+    elif how == "ulp-":
+        y = float(np.nextafter(x, -np.inf))
+    elif how == "rel+4e-7":
+        y = x * (1 + 4e-7)
+    elif how == "rel-4e-7":
+        y = x * (1 - 4e-7)
+    elif how == "float32":
+        y = float(np.float32(x))
+        if y == x:
+            y = x * (1 + 3e-8)
+    elif how == "x2^-61":
+        y = x * 2.0 ** -61
+    elif how == "x2^61":
+        y = x * 2.0 ** 61
+    elif how == "abs+1e-9":
+        y = x + 1e-9
+    elif how == "round3":
+        y = round(x, 3)
+        if y == x:
+            y = x + 4e-4
+    elif how == "int-part":
+        y = math.floor(x) + (0.25 if x - math.floor(x) >= 0.5 else 0.75)
+    else:
+        raise KeyError(how)
+    return y
+
+
+def big_size(lo, hi):
+    """Log-uniform integer sizes for the deployment-scale pass, with the neighbourhood of powers of two (where
+    blocked / chunked code changes path) drawn as often as the bulk."""
+    def near_pow2(args):
+        e, off = args
+        return int(min(hi, max(lo, 2 ** e + off)))
+    e_lo, e_hi = max(1, math.ceil(math.log2(lo))), math.floor(math.log2(hi))
+    return st.one_of(
+        floats(math.log2(lo), math.log2(hi)).map(lambda e: int(round(2.0 ** e))),
+        st.tuples(st.integers(e_lo, max(e_lo, e_hi)), st.sampled_from([-2, -1, 0, 1, 2, 3])).map(near_pow2),
+    )
+
+
 # ---------------------------------------------------------------------------
 # signal recipes
 # ---------------------------------------------------------------------------
